@@ -1020,6 +1020,13 @@ static void run_op(char **t, int nt)
 		rc = cfg_setcomment(loc_cfg, name, c);
 		free(name); free(c); logret(op, rc); return;
 	}
+	if (!strcmp(op, "opt_free_value")) {	/* cfg_free_value(opt): the public call that empties an option */
+		int rc;
+		NEED(2); LOCOPT(1);
+		rc = cfg_free_value(loc_opt);
+		logret(op, rc);
+		return;
+	}
 	if (!strcmp(op, "opt_setcomment")) {
 		char *c; int rc;
 		NEED(3); LOCOPT(1);
